@@ -27,7 +27,7 @@ CHECKS.update({
   "C14": dict(cat="model_checking", tech="explicit-state BFS over operation histories on one real document + shared SignificantTimes object; invariants in every state, step oracle on every transition",
               text="all histories of <= 3 (quick) / 4 (thorough) operations (significant_times, from_model cached/uncached at 3 times, generate_isd_sequence, SRT, VTT x2, IMSC x2) on 16 seed documents; in every state the source fingerprint is unchanged and cached snapshots render like uncached ones at every probe time; on every transition the result equals that of the same operation on a pristine document",
               note="state canon keeps document fingerprint, cache projection, capped multiset of operation kinds and known module-level state; render equivalence as allowed by the statement", ref="3/C14"),
-  "C17": dict(cat="exploration", tech="whole-domain enumeration of all 65,536 words (both parities) against an independent CEA-608 table; all lines of <= 3/4 representative words for the disassembly",
+  "C17": dict(cat="exploration", tech="whole-domain enumeration of all 65,536 words (both parities) against an independent CEA-608 table; all lines of <= 3/4 representative words for the disassembly; all ordered pairs of control-range words with the first word held while the second is decoded",
               text="every 16-bit value is classified by the real SccWord and compared class, channel, attributes and characters with an independent table; the domain is finite and enumerated completely",
               note="independent table mc/ref608.py gated by hand-known facts and the repository's own test literals; CEA-608 defines glyphs, so look-alike code points pinned by the repo's tests are accepted as alternates", ref="3/C17"),
 })
